@@ -823,6 +823,43 @@ class C17(Check):
                         cells.append({"kind": "api", "calls": [{"fn": "$lenmix", "mech": m, "dir": d, "s": {"$s": 0}, "steps": [["update", n1, "$exact"], ["single", n2, "$exact"]]}]})
                         cells.append({"kind": "api", "calls": [{"fn": "$lenmix", "mech": m, "dir": d, "s": {"$s": 0},
                                                                 "steps": [["update", n1, "$exact"], ["update", n2, "$exact"], ["final", 0, "$exact"]]}]})
+        # (c) every output-producing call family with a caller buffer that is SMALLER than the result (0, 1, half, result - 1 bytes) and with the
+        #     exact size: the call must answer CKR_BUFFER_TOO_SMALL / a return code and never write behind the announced length (canaries, ASan)
+        def op(kind, mech, p, role_, follow):
+            return {"fn": "$op", "kind": kind, "mech": mech, "p": p, "role": role_, "s": {"$s": 0}, "follow": follow}
+        oaep = {"oaep": {"hash": K.CKM_SHA_1, "mgf": K.CKG_MGF1_SHA1, "source": K.CKZ_DATA_SPECIFIED}}
+        pss = {"pss": {"hash": K.CKM_SHA256, "mgf": K.CKG_MGF1_SHA256, "slen": 32}}
+        smalls = [0, 1, 7, 16, 31, 63, 64, 100, 127, 128, 255, 256]
+        for mech, p_, maxmsg in (("CKM_RSA_PKCS", None, 100), ("CKM_RSA_PKCS_OAEP", oaep, 60), ("CKM_RSA_X_509", None, None)):
+            for mlen in ((1, 17, maxmsg) if maxmsg else (None,)):
+                msg = ("00" + "5a" * 127) if mlen is None else "a7" * mlen
+                for n in smalls:
+                    cells.append({"kind": "api", "calls": [op("enc", mech, p_, "rsa_pub", [["single", msg, 1024, None]]),
+                                                          op("dec", mech, p_, "rsa_priv", [["single", None, n, None]])]})
+                    cells.append({"kind": "api", "calls": [op("enc", mech, p_, "rsa_pub", [["single", msg, n, None]])]})
+        signers = [("CKM_RSA_PKCS", None, "rsa_priv", "30" * 20, False), ("CKM_SHA256_RSA_PKCS", None, "rsa_priv", "31" * 50, True), ("CKM_SHA256_RSA_PKCS_PSS", pss, "rsa_priv", "32" * 50, True),
+                   ("CKM_RSA_X_509", None, "rsa_priv", "00" + "33" * 40, False), ("CKM_ECDSA", None, "ec_priv", "34" * 32, False), ("CKM_EDDSA", None, "ed_priv", "35" * 40, False),
+                   ("CKM_DSA", None, "dsa_priv", "36" * 20, False), ("CKM_DSA_SHA1", None, "dsa_priv", "37" * 33, True), ("CKM_SHA256_HMAC", None, "generic", "38" * 33, True),
+                   ("CKM_SHA512_HMAC", None, "generic", "39" * 33, True), ("CKM_AES_CMAC", None, "aes", "3a" * 33, True), ("CKM_DES3_CMAC", None, "des3", "3b" * 33, True)]
+        for mech, p_, role_, msg, multi in signers:
+            for n in smalls:
+                cells.append({"kind": "api", "calls": [op("sign", mech, p_, role_, [["single", msg, n, None]])]})
+                if multi:
+                    cells.append({"kind": "api", "calls": [op("sign", mech, p_, role_, [["update", msg, None, None], ["final", None, n, None]])]})
+        for mech in ("CKM_MD5", "CKM_SHA_1", "CKM_SHA224", "CKM_SHA256", "CKM_SHA384", "CKM_SHA512"):
+            for n in (0, 1, 15, 16, 19, 20, 27, 28, 31, 32, 47, 48, 63, 64):
+                cells.append({"kind": "api", "calls": [op("digest", mech, None, None, [["single", "3c" * 70, n, None]])]})
+                cells.append({"kind": "api", "calls": [op("digest", mech, None, None, [["update", "3d" * 70, None, None], ["final", None, n, None]])]})
+        # (d) the configuration file: every known key with every value of the value table (and list-shaped values with empty / blank / doubled
+        #     separators for slots.mechanisms), in an otherwise sane configuration, with two separator shapes
+        _, vals_, listvals = conf_tables()
+        sane_lines = [["kv", "directories.tokendir", "$TOKENDIR", " = "], ["kv", "objectstore.backend", "file", " = "], ["kv", "log.level", "ERROR", " = "],
+                      ["kv", "slots.removable", "false", " = "]]
+        for key in ("directories.tokendir", "objectstore.backend", "objectstore.umask", "log.level", "slots.removable", "slots.mechanisms", "library.reset_on_fork"):
+            for val in vals_ + (listvals if key == "slots.mechanisms" else []):
+                for sep in (" = ", "="):
+                    lines = [ln for ln in sane_lines if ln[1] != key] + [["kv", key, val, sep]]
+                    cells.append({"kind": "conf", "lines": lines})
         ctx.extra["enumerated_cells_total"] = len(cells) if shard == 0 else 0
         for i, cell in enumerate(cells):
             if i % nshards != shard:
@@ -1561,12 +1598,22 @@ class C17(Check):
         return bytes.fromhex(ln[1])
 
 
-def conf_line_st():
+def conf_tables():
     keys = ["directories.tokendir", "objectstore.backend", "objectstore.umask", "log.level", "slots.removable", "slots.mechanisms", "library.reset_on_fork",
             "unknown.key", "", "directories.tokendir ", "slots.mechanisms"]
+    # list-shaped values with empty, blank and doubled elements and separators in every position
+    listvals = ["CKM_AES_CBC,,CKM_SHA256", "CKM_AES_CBC, ,CKM_SHA256", ",CKM_AES_CBC", "CKM_AES_CBC,", " CKM_AES_CBC", "CKM_AES_CBC ", "CKM_AES_CBC , CKM_SHA256",
+                "-,", "-CKM_AES_CBC,,", "- CKM_AES_CBC", "-CKM_AES_CBC,-CKM_SHA256", "ALL,CKM_AES_CBC", "all", "-ALL", "CKM_AES_CBC;CKM_SHA256", "\tCKM_AES_CBC",
+                "CKM_AES_CBC\t,\tCKM_SHA256", " ", " , ", "-- ", "CKM_AES_CBC,CKM_AES_CBC", "-CKM_AES_CBC,CKM_AES_CBC,,,,"]
     vals = ["$TOKENDIR", "$TOKENDIR/", "$MISSING", "$CONF", "/", "", "file", "db", "FILE", "nosuch", "0077", "0000", "7777", "8", "-1", "99999999999999999999", "0x77",
             "ERROR", "DEBUG", "INFO", "WARNING", "nolevel", "true", "false", "TRUE", "1", "maybe", "ALL", "CKM_AES_CBC", "CKM_AES_CBC,CKM_SHA256", "-CKM_RSA_PKCS",
             "-", ",", ",,,", "CKM_NOPE", "-CKM_NOPE,CKM_AES_CBC", "A" * 300, "A" * 5000, "CKM_AES_CBC," * 400, "$TOKENDIR" + "/x" * 2100, "\t", " = = ", "é"]
+    return keys, vals, listvals
+
+
+def conf_line_st():
+    keys, vals, listvals = conf_tables()
+    vals = vals + listvals
     seps = [" = ", "=", " =", "= ", " ", ":", " = = "]
     kv = st.tuples(st.just("kv"), st.sampled_from(keys), st.sampled_from(vals), st.sampled_from(seps)).map(list)
     raw = st.binary(max_size=80).map(lambda b: ["raw", b.replace(b"\n", b" ").hex()])
